@@ -81,7 +81,21 @@ func allSlices(maxLen int) [][]int {
 	return out
 }
 
-var startSlices = allSlices(4) // 1+3+9+27+81 = 121
+var initOpSlices = allSlices(4) // 1+3+9+27+81 = 121: arguments of the Init operations
+
+// startSlices: the start states. Besides every slice of length <= 4, every arrangement of the
+// LONGEST heaps (length = size cap, 729 / 2187 slices): heapify starts its loop at index n/2-1,
+// so only n >= 6 makes it sift from index 2 — the short starts never do.
+var startSlices = allSlices(4)
+
+func extendStarts(sizeCap int) {
+	all := allSlices(sizeCap)
+	for _, s := range all {
+		if len(s) == sizeCap {
+			startSlices = append(startSlices, s)
+		}
+	}
+}
 
 // sizeCap: 6 is the smallest heap in which Remove(i) must sift the displaced last element UP (it
 // comes from the other subtree: positions 3/4 hang under 1, the last position 5 under 2), so the
@@ -184,6 +198,7 @@ func main() {
 	if valuesField < 0 {
 		common.Infra("heapz.Heap has no private field `values []*Element[T]`: the harness reads the backing order through it")
 	}
+	extendStarts(sizeCap(r))
 	var results []space.Result
 	for _, sys := range []space.System{heapSystem(r), sliceSystem(r), genericSystem(r)} {
 		res := space.Search(r, sys)
@@ -202,7 +217,7 @@ func main() {
 	r.SampleL("Heap", map[string]any{"start": "Init([2,0,1], less)", "then": "Push(0), Fix(handle at position 2 after Value=0), Remove(stale), Pop, PopAll"})
 	r.SampleL("Slice", map[string]any{"start": "FromSlice([1,1,0], greater)", "then": "Remove(-1), Remove(3), Values[1]=2; Fix(1), Pop"})
 	r.Assume(
-		fmt.Sprintf("small scope: values {0,1,2}, at most %d elements (growing operations are not offered at the cap), start/Init slices of length <= 4, comparators %v", sizeCap(r), cs),
+		fmt.Sprintf("small scope: values {0,1,2}, at most %d elements (growing operations are not offered at the cap), start slices of length <= 4 and every arrangement of length = the size cap, Init arguments of length <= 4, comparators %v", sizeCap(r), cs),
 		"equivalent departed handles (owner nil, index -1) are represented by the most recently departed one; one handle of a second one-element heap stands for all foreign handles",
 		"live handles are named by their position in Heap's private backing array (read through reflect), which merges states that differ only in the order of the harness table; every departed handle is checked for Index() == -1 at the moment it departs",
 		"generic functions: Pop only on a non-empty container and Remove/Fix only at indices 0..Len()-1 (the property text says nothing about other indices there; they behave like container/heap); zero-value Heap/Slice without a comparator are not constructed heaps and are not exercised",
